@@ -233,10 +233,11 @@ class NamespaceFunction(Namespace[symtable.Function]):
             )
         else:  # globals or locals except free
             try:
-                declared_global = self.symt.lookup(name).is_declared_global()
+                # declared here, or global because an enclosing function declares it
+                is_global = self.symt.lookup(name).is_global()
             except KeyError:
-                declared_global = False
-            if declared_global:
+                is_global = False
+            if is_global:
                 return self.get_load_declared_global(name)
             return Name(id=name, ctx=Load())
 
@@ -362,10 +363,8 @@ class NamespaceClass(Namespace[symtable.Class]):
                 slice=Constant(value=name),
                 ctx=Load(),
             )
-        elif symbol.is_declared_global():
-            return self.get_load_declared_global(name)
         elif symbol.is_global():
-            return Name(id=name, ctx=Load())
+            return self.get_load_declared_global(name)
         else:
             # a class member; until the class body has bound it, Python
             # reads the global (or builtin) variable of the same name
